@@ -5,6 +5,7 @@ package main
 // only if the rule holds for exactly the bytes being verified.  Also: byte flips of a signed image.
 
 import (
+	"sort"
 	"time"
 	"bytes"
 	"crypto/sha256"
@@ -36,6 +37,47 @@ func independentDigest(b []byte, cksum, dd4, end int) []byte {
 	h.Write(b[dd4+8 : end])
 	h.Write(make([]byte, (8-end%8)%8))
 	return h.Sum(nil)
+}
+
+// procedureDigest: SHA-256 by the specification's procedure for an image made by buildPE (any layout): the three header pieces up to
+// SizeOfHeaders, the sections with raw data in file-offset order, then the data from offset SUM_OF_BYTES_HASHED (header size plus
+// section sizes - with unreferenced bytes in the file that is not the end of the last section) up to `end`, zero-padded to 8.
+func procedureDigest(b []byte, img *peImage, end int) []byte {
+	d := sha256.Sum256(procedureInput(b, img, end))
+	return d[:]
+}
+
+// imageEnd: where the certificate table of a serialised image begins (the end of the file if there is none)
+func imageEnd(b []byte, img *peImage) int {
+	va, size := int(binary.LittleEndian.Uint32(b[img.dd4:])), int(binary.LittleEndian.Uint32(b[img.dd4+4:]))
+	if size > 0 && va > 0 && va <= len(b) {
+		return va
+	}
+	return len(b)
+}
+
+func procedureInput(b []byte, img *peImage, end int) []byte {
+	h := &bytes.Buffer{}
+	h.Write(b[:img.cksum])
+	h.Write(b[img.cksum+4 : img.dd4])
+	h.Write(b[img.dd4+8 : img.soh])
+	sum := img.soh
+	idx := []int{}
+	for k := range img.ptrs {
+		if img.sizes[k] > 0 {
+			idx = append(idx, k)
+		}
+	}
+	sort.Slice(idx, func(i, j int) bool { return img.ptrs[idx[i]] < img.ptrs[idx[j]] })
+	for _, k := range idx {
+		h.Write(b[img.ptrs[k] : img.ptrs[k]+img.sizes[k]])
+		sum += img.sizes[k]
+	}
+	if end > sum {
+		h.Write(b[sum:end])
+	}
+	h.Write(make([]byte, (8-end%8)%8))
+	return h.Bytes()
 }
 
 // peHashInput rebuilds the Authenticode hash input of a real image file whose raw data is contiguous and in file order (true for the
